@@ -214,6 +214,14 @@ def run_check(pid, tier, seed, procs, t0):
                 rep["concrete_input"] = hit[0]["inputs"]
                 rep["real_run"] = {"interpreter": VENV_PY, "failed_clauses": hit[0]["failed"], "outcome": hit[0].get("outcome"), "details": hit[0].get("details")}
                 rep["status"] = "confirmed"
+        elif ct is None and any(o["name"].startswith(lm.name + "/") and hasattr(lm, "replay") for lm in lemmas):
+            # a refuted lemma that knows how to run the real functions on the counter-model
+            lm = [x for x in lemmas if o["name"].startswith(x.name + "/") and hasattr(x, "replay")][0]
+            sr = lm.replay(o.get("model"))
+            if sr and sr.get("reproduced"):
+                rep["concrete_input"] = sr.get("input")
+                rep["real_run"] = sr
+                rep["status"] = "confirmed"
         elif ct is not None and getattr(ct, "replay_scenario", None):
             sr = ct.replay_scenario(o, tier, seed)
             if sr and sr.get("reproduced"):
